@@ -234,6 +234,9 @@ def real_layers():
     # 111319.4907932736 m per degree for every geographic CRS (OGC 07-057r7 6.1, Table 2 note)
     add(4267, {'srs': 'EPSG:4267', 'bbox': [-125, 24, -66, 50], 'res': [0.25, 0.125, 0.0625, 0.0078125], 'tile_size': [64, 64], 'origin': 'ul'}, kind='exact')
     add(4230, {'srs': 'EPSG:4230', 'bbox': [-10, 35, 30, 70], 'res': [0.5, 0.125], 'tile_size': [32, 32]}, kind='exact')
+    # ul / nw grids with non-square tiles, aligned on every level (tile height != tile width in tile_bbox, WMS-C, KML boxes)
+    add(4326, {'srs': 'EPSG:4326', 'bbox': [-32, -16, 32, 16], 'res': [1, 0.5, 0.25], 'tile_size': [8, 4], 'origin': 'ul'}, kind='exact')
+    add(3857, {'srs': 'EPSG:3857', 'bbox': [0, 0, 6400, 12800], 'res': [20, 10], 'tile_size': [64, 128], 'origin': 'nw'}, kind='exact')
     # one layer, one cache, several grids: a tile layer per grid, each with the extent of its own grid
     add(3857, {'srs': 'EPSG:3857', 'bbox': [0, 0, 1000, 700], 'res': [4, 2, 1], 'tile_size': [100, 100], 'origin': 'ul'}, kind='exact', layer='mg1')
     add(25832, {'srs': 'EPSG:25832', 'bbox': [400000, 5500000, 401024, 5500512], 'res': [4, 2], 'tile_size': [64, 64]}, kind='exact', layer='mg1')
@@ -509,6 +512,7 @@ class Run(object):
         self.svcgrid = ([], [])
         self.addr_log = []
         self.sched = ([], [])
+        self.kmlwgs = ([], [])
         self.app_seq = 0
         self.known = {}
 
@@ -687,19 +691,54 @@ def do_tiles_kml(R, st, srv, tilemap_href):
     return rel
 
 
+MERC_R = 6378137.0
+
+
+def merc_to_wgs(rect):
+    """what a KML client is told for a (web) mercator rectangle: spherical inverse mercator; a rectangle that ends at the border
+    of the mercator WORLD (+-20037508.342789244, within 0.1) is extended to the pole (kml.py _tile_bbox_to_wgs)"""
+    def lon(x):
+        return math.degrees(float(x) / MERC_R)
+
+    def lat(y):
+        return math.degrees(2 * math.atan(math.exp(float(y) / MERC_R)) - math.pi / 2)
+    south = -90.0 if abs(float(rect[1]) + MERC) < 0.1 else lat(rect[1])
+    north = 90.0 if abs(float(rect[3]) - MERC) < 0.1 else lat(rect[3])
+    return (lon(rect[0]), south, lon(rect[2]), north)
+
+
+def wgs_to_merc(box):
+    """mercator rectangle of a LatLonBox (to compare the document with the model, which works in the grid SRS)"""
+    def y(lat):
+        lat = float(lat)
+        if abs(lat) >= 90.0:
+            return math.copysign(MERC, lat)
+        return MERC_R * math.log(math.tan(math.pi / 4 + math.radians(lat) / 2))
+    return (Fraction(math.radians(float(box[0])) * MERC_R), Fraction(y(box[1])), Fraction(math.radians(float(box[2])) * MERC_R), Fraction(y(box[3])))
+
+
 def do_kml_docs(R, st, srv, rel):
-    """KML super-overlay documents (only for EPSG:4326 grids on the exact lattice: LatLonBox = rectangle in the grid SRS)"""
+    """KML super-overlay documents: EPSG:4326 grids (LatLonBox = rectangle in the grid SRS) and (web) mercator grids (LatLonBox =
+    inverse mercator of the rectangle, extended to the pole at the border of the mercator world)"""
     ctx, gc, rng = R.ctx, st.gc, R.ctx.rng
-    if st.spec.epsg != 4326:
+    merc = st.spec.epsg in (3857, 900913)
+    if st.spec.epsg != 4326 and not merc:
         return
     # %f prints 6 decimals: exact on the lattice of the exact stream, within 1e-6 on the realistic stream
     ktol = Fraction(0) if st.exact else Fraction(1, 10 ** 6)
     kztol = 0 if st.exact else int(gc.S / 10 ** 6) + 1
+    if merc:
+        # %f: 1e-6 degree is 0.11 m at the equator and 1.3 m in mercator y at 85 degrees: the document is compared with the model
+        # within 2 m (grids with pixels of at least 8 m: a tile is at least 16 m high)
+        ktol = Fraction(2, 10 ** 6)
+        kztol = 2 * gc.S + 1
+        if min(gc.res) < 8:
+            return
     step = 2 if st.sqrt2 else 1
     nlev = (len(gc.res) + step - 1) // step
     for z in range(nlev):
         nx, ny = gc.grid_size(z * step)
-        pts = sample_xy(rng, nx, ny, full_limit=6, k=3)[:8]
+        pts = sample_xy(rng, nx, ny, full_limit=6, k=3)[:(5 if merc else 8)]
         for x, y in pts:
             url = '/kml/%s/%d/%d/%d.kml' % (rel, z, x, y)
             status, ctype, body, loads = get(R.app, R.obs, url)
@@ -713,7 +752,7 @@ def do_kml_docs(R, st, srv, rel):
                 except Exception as e:  # noqa
                     ctx.fail('kml:document-unparsable', 'KML document %s cannot be parsed: %r' % (url, e), d)
                     continue
-                ok = (not st.exact) or (all(gc.can_scale(v) for v in region) and all(gc.can_scale(v) for _, b in overlays for v in b))
+                ok = (not st.exact) or merc or (all(gc.can_scale(v) for v in region) and all(gc.can_scale(v) for _, b in overlays for v in b))
                 subs = []
                 for href, box in overlays:
                     mm = re.search(r'/(-?\d+)/(-?\d+)/(-?\d+)\.png$', href)
@@ -722,7 +761,11 @@ def do_kml_docs(R, st, srv, rel):
                 if not ok:
                     ctx.fail('kml:box-values', 'KML boxes of %s are not lattice values (6 decimals)' % url, d)
                     continue
-                term = '(KmlDoc %s %s)' % (zrect(gc, region), llit(subs, lambda s: '(Some %s, %s)' % (coordlit(s[0]), zrect(gc, s[1]))))
+                if merc:
+                    term = '(KmlDoc %s %s)' % (zrect(gc, wgs_to_merc(region)),
+                                               llit(subs, lambda s: '(Some %s, %s)' % (coordlit(s[0]), zrect(gc, wgs_to_merc(s[1])))))
+                else:
+                    term = '(KmlDoc %s %s)' % (zrect(gc, region), llit(subs, lambda s: '(Some %s, %s)' % (coordlit(s[0]), zrect(gc, s[1]))))
                 # oracle: every advertised image address covers its LatLonBox
                 for (cx, cy, cz), box, href in subs:
                     s2, _, _, loads2 = get(R.app, R.obs, path_of(href))
@@ -732,7 +775,21 @@ def do_kml_docs(R, st, srv, rel):
                         ctx.fail('kml:unexpected-answer', 'KML image %s: %s' % (href, c2), dd)
                     elif c2 is None:
                         ctx.fail('kml:advertised-address-refused', 'image %s advertised by %s is refused (%s)' % (href, url, s2), dd)
-                    elif not (0 <= c2[2] < len(gc.res)) or not rect_close(gc.tile_rect(*c2), box, ktol):
+                    elif 0 <= c2[2] < len(gc.res):
+                        # the LatLonBox rule of kml.py in the model (kml_bbox_to_wgs): T = the harness's own transformation of the
+                        # rectangle of the loaded tile (spherical inverse mercator without any pole rule / identity), in microdegrees
+                        tr = gc.tile_rect(*c2)
+                        if merc:
+                            tw_ = merc_to_wgs((tr[0], Fraction(0), tr[2], Fraction(0)))
+                            lat = [math.degrees(2 * math.atan(math.exp(float(v) / MERC_R)) - math.pi / 2) for v in (tr[1], tr[3])]
+                            tbox = (tw_[0], lat[0], tw_[2], lat[1])
+                        else:
+                            tbox = tuple(float(v) for v in tr)
+                        micro = lambda vs: '(%s, %s, %s, %s)' % tuple(zlit(int(round(float(v) * 10 ** 6))) for v in vs)  # noqa
+                        R.add(R.kmlwgs, '(%s, %s, %s, %s, %s, %s)' % (micro(tbox), blit(merc), zlit(int(round(Fraction(MERC) * gc.S))),
+                                                                      zlit(max(gc.S // 10, 1)), zrect(gc, tr), micro(box)), dd)
+                    if k2 == 'ok' and c2 is not None and (not (0 <= c2[2] < len(gc.res)) or
+                            not rect_close(merc_to_wgs(gc.tile_rect(*c2)) if merc else gc.tile_rect(*c2), box, ktol)):
                         ctx.fail('kml:rectangle-mismatch', 'image %s advertised with LatLonBox %r is tile %r covering %r' % (
                             href, [float(v) for v in box], c2, [float(v) for v in gc.tile_rect(*c2)]), dd)
                 for href in links:
@@ -1149,10 +1206,11 @@ class PixelUpstream(object):
         ry = (bbox[3] - bbox[1]) / h
         fx = (bbox[0] - gc.bbox[0]) / rx
         fy = (bbox[3] - gc.bbox[1]) / ry
-        if rx != ry or fx.denominator != 1 or fy.denominator != 1:
+        # on the lattice up to float noise of the doubles in the URL (1e-6 pixel)
+        if abs(rx / ry - 1) > Fraction(1, 10 ** 9) or abs(fx - round(fx)) > Fraction(1, 10 ** 6) or abs(fy - round(fy)) > Fraction(1, 10 ** 6):
             self.off_lattice.append(url)
-        kx = int(math.floor(fx)) + np.arange(w, dtype=np.int64)
-        ky = int(math.floor(fy)) - 1 - np.arange(h, dtype=np.int64)
+        kx = int(round(fx)) + np.arange(w, dtype=np.int64)
+        ky = int(round(fy)) - 1 - np.arange(h, dtype=np.int64)
         buf = io.BytesIO()
         Image.fromarray(cell_colours(kx, ky), 'RGB').save(buf, 'PNG')
         return FakeResponse(buf.getvalue(), 'image/png')
@@ -1169,6 +1227,10 @@ def pixel_layers(ctx):
     add(3857, {'srs': 'EPSG:3857', 'bbox': [0, 0, 1000, 1000], 'res': [4, 2, 1], 'tile_size': [256, 256], 'origin': 'ul'})
     add(3857, {'srs': 'EPSG:3857', 'bbox': [0, 0, 552, 856], 'res': [8, 4, 2], 'tile_size': [32, 32], 'origin': 'll'}, [2, 2], 10)
     add(4326, {'base': 'GLOBAL_GEODETIC', 'num_levels': 3})
+    add(3857, {'srs': 'EPSG:3857', 'bbox': [0, 0, 1000, 1200], 'res': [4, 2], 'tile_size': [64, 32], 'origin': 'ul'}, [2, 2], 10)
+    # doubles that are not on a dyadic lattice: the buffer that is cut off at the grid border is 79.99999.. / 80.00000..1 pixels
+    add(900913, {'base': 'GLOBAL_MERCATOR', 'num_levels': 4})
+    add(900913, {'base': 'GLOBAL_MERCATOR', 'num_levels': 3, 'origin': 'nw'}, [2, 2], 30)
     add(3857, {'srs': 'EPSG:3857', 'bbox': [0, 0, 1000, 1000], 'res': [4, 1], 'tile_size': [100, 100], 'origin': 'll'}, [3, 3], 0)
     add(3035, {'srs': 'EPSG:3035', 'bbox': [4000000, 2700000, 4700000, 3600000], 'res': [2000, 1000, 500], 'tile_size': [64, 64],
                'origin': 'nw'}, [2, 3], 7)
@@ -1296,13 +1358,13 @@ def do_pixels(ctx):
                             continue
                         fx = (rr[0] - gc.bbox[0]) / r
                         fy = (rr[3] - gc.bbox[1]) / r
-                        if fx.denominator != 1 or fy.denominator != 1:
+                        if abs(fx - round(fx)) > Fraction(1, 10 ** 6) or abs(fy - round(fy)) > Fraction(1, 10 ** 6):
                             continue
-                        kx = int(fx) + np.arange(gc.tw, dtype=np.int64)
-                        ky = int(fy) - 1 - np.arange(gc.th, dtype=np.int64)
+                        kx = int(round(fx)) + np.arange(gc.tw, dtype=np.int64)
+                        ky = int(round(fy)) - 1 - np.arange(gc.th, dtype=np.int64)
                         want = cell_colours(kx, ky)
-                        inside = ((kx >= 0) & (kx < int((gc.bbox[2] - gc.bbox[0]) / r)))[None, :] & \
-                                 ((ky >= 0) & (ky < int((gc.bbox[3] - gc.bbox[1]) / r)))[:, None]
+                        inside = ((kx >= 0) & (kx < int(round((gc.bbox[2] - gc.bbox[0]) / r))))[None, :] & \
+                                 ((ky >= 0) & (ky < int(round((gc.bbox[3] - gc.bbox[1]) / r))))[:, None]
                         bad = inside & np.any(img != want, axis=2)
                         ctx.count('pixels:overhang' if not inside.all() else 'pixels:inside')
                         if bad.any():
@@ -1317,7 +1379,7 @@ def do_pixels(ctx):
                             first = img
                             # correspondence with the meta tile model (MetaGrid.v model_pixel: meta tile bbox, tile pattern with
                             # negative offsets at the grid border, TileSplitter): sampled pixels, where the code is unambiguous
-                            ncx, ncy = int((gc.bbox[2] - gc.bbox[0]) / r), int((gc.bbox[3] - gc.bbox[1]) / r)
+                            ncx, ncy = int(round((gc.bbox[2] - gc.bbox[0]) / r)), int(round((gc.bbox[3] - gc.bbox[1]) / r))
                             if ncx < 2048 and ncy < 2048 and gc.can_scale(r):
                                 edge_j = [int(v) for v in np.nonzero(inside.any(axis=1))[0][[0, -1]]] if inside.any() else []
                                 edge_i = [int(v) for v in np.nonzero(inside.any(axis=0))[0][[0, -1]]] if inside.any() else []
@@ -1454,5 +1516,9 @@ def run(ctx):
                        "opt_eqb (opt_eqb (pair_eqb Z.eqb Z.eqb)) "
                        "(option_map (option_map (fun p : Z * Z => (n (fst p), n (snd p)))) (model_pixel m q HowMeta t j k)) obs",
                        lambda i: pix[2][i], defs='\n'.join(pix[0]))
+    ctx.corr_check('kml_latlonbox', imports, 'bbox * bool * Z * Z * bbox * bbox', R.kmlwgs[0],
+                   "fun c => let '(t, merc, world, tenth, src, obs) := c in "
+                   "bbox_close 2 (kml_bbox_to_wgs (fun _ => t) merc world tenth 90000000 src) obs",
+                   lambda i: R.kmlwgs[1][i])
     ctx.corr_check('kml_document', imports, 'tlayer * Z * Z * Z * Z * kml_doc', R.kml[0],
                    "fun c => let '(s, tol, x, y, z, obs) := c in kml_doc_close tol (kml_document s x y z) obs", lambda i: R.kml[1][i], defs=defs)
